@@ -261,7 +261,8 @@ MANIFEST_META = {
                   "compile sw / proj / normsq; the function is run on indeterminate coefficients and compared with a*b*~a, "
                   "(a|b)*~b, a*~a from the elementary operators and from the reference model, so a blade dropped by the "
                   "zero filter is accepted only when its reference polynomial is identically zero."
-                  " Also: the operators applied to a.inv() inside register(symbolic=True) (rational-function operands), 264 structural cases every run (d=5 blade+complement, 12-16 blade operands in three key orders with and without cse), typed coefficient representations.",
+                  " Also: the operators applied to a.inv() inside register(symbolic=True) (rational-function operands), 264 structural cases every run (d=5 blade+complement, 12-16 blade operands in three key orders with and without cse), typed coefficient representations."
+                  " Fixed d=5 / d=6 cases with 20 / 35 output coefficients; symbol classes Polynomial / RationalPolynomial given explicitly.",
     "level_note": "Trusted: kv.refalg/kv.refops, kv.ring.Q. Pattern sizes capped for cost (d=4: 6 blades, d=5: 4); sampling for d>=2 "
                   "(quick) / d>=3 (thorough).",
 }
